@@ -1018,6 +1018,7 @@ func TestVerifC27(t *testing.T) {
 		"the routing table is a real metadata.PartitionRouter loaded from a fake etcd KV whose watch never fires: it only changes through the proxy's own Invalidate",
 		"a 'malformed reply' is either undecodable bytes or a well-formed response that omits the requested partitions",
 		"acks=0 produce (no reply at all) is outside the statement",
+		"the fan-out iterates a Go map: when an unknown-owner group coexists with owned groups, which backend the round-robin group lands on depends on map iteration order, which cannot be controlled; every script is run under the order that occurred (the oracle does not depend on it)",
 	}
 	thorough := vh.Thorough()
 	k0, err := c27NewWorker()
